@@ -13,7 +13,7 @@ import os
 import sys
 import time
 import traceback
-from typing import List
+from typing import Dict, List
 
 from .frontend import Repo, FrontEndError
 from .report import Ob, KnownFindings, write_evidence, write_replay
@@ -195,6 +195,43 @@ def _second_opinion(prop, spec, root, obs: List[Ob], out) -> List[Ob]:
                 o.detail = (o.detail + '\n' if o.detail else '') + '(found on the normal form of the source)'
             out_obs = [o for o in out_obs if o.rule != r] + alt
             print(f"{prop}: {r} violated on the normal form ({len(alt_viol)} instances); undecided on the source as written",
+                  file=out)
+            continue
+        # neither form discharges the whole rule: the obligations of one function (or pair of functions) that all hold on the
+        # normal form are still discharged (the normal form is value-equivalent) - the rule then stays open only for the
+        # functions that are open on both forms.  Obligations are grouped by the function named at the head of their title.
+        def head(o: Ob) -> str:
+            return o.title.split(':')[0].split(' (')[0].strip()
+        g1: Dict[str, List[Ob]] = {}
+        for o in alt:
+            g1.setdefault(head(o), []).append(o)
+        open0 = {head(o) for o in out_obs if o.rule == r and (o.status == 'inconclusive' or (
+            o.status == 'violation' and known.match(prop, o) is None))}
+        swapped = []
+        for h in sorted(open0):
+            grp = g1.get(h, [])
+            if grp and any(o.status in ('ok', 'violation') for o in grp) and all(
+                    o.status in ('ok', 'info') or (o.status == 'violation' and known.match(prop, o) is not None) for o in grp):
+                for o in grp:
+                    o.extra['analysed'] = 'normal form'
+                out_obs = [o for o in out_obs if not (o.rule == r and head(o) == h)] + grp
+                swapped.append(h)
+        if swapped:
+            print(f"{prop}: {r}: obligations of {', '.join(swapped)} decided on the normal form", file=out)
+        # ... and a function whose obligations are violated on the source as written but only undecided on the normal form (no
+        # violation there) is undecided: a rule is reported as violated only if it is violated on both forms
+        open0 = {head(o) for o in out_obs if o.rule == r and o.status == 'violation' and known.match(prop, o) is None}
+        undecided = []
+        for h in sorted(open0):
+            grp = g1.get(h, [])
+            if grp and any(o.status == 'inconclusive' for o in grp) and not any(
+                    o.status == 'violation' and known.match(prop, o) is None for o in grp):
+                for o in grp:
+                    o.extra['analysed'] = 'normal form'
+                out_obs = [o for o in out_obs if not (o.rule == r and head(o) == h)] + grp
+                undecided.append(h)
+        if undecided:
+            print(f"{prop}: {r}: obligations of {', '.join(undecided)} violated on the source as written, undecided on the normal form",
                   file=out)
     return out_obs
 
